@@ -11,6 +11,7 @@ use syn::{Expr, Lit, Meta};
 
 include!("../../common/sexp.rs");
 include!("../../common/opq.rs");
+include!("render_impls.rs");
 
 // ------------------------------------------------------------------------------------------------
 // Uninterpreted hooks.  Natively: deterministic functions steered by the literal text.
